@@ -459,7 +459,9 @@ func initRollingFileLogger(
 			return err
 		}
 	}
-	return nil
+
+	// Start the inner logger last: the async worker needs running appenders.
+	return f.logger.Start()
 }
 
 // Append forwards the event to the underlying logger.
@@ -472,8 +474,12 @@ func (f *RollingFileLogger) Write(b []byte) {
 	f.logger.Write(b)
 }
 
-// Stop stops all appenders.
+// Stop stops the inner logger, which flushes what it has buffered,
+// and then all appenders.
 func (f *RollingFileLogger) Stop() {
+	if f.logger != nil {
+		f.logger.Stop()
+	}
 	for _, a := range f.appenders {
 		a.Stop()
 	}
